@@ -92,8 +92,19 @@ FRESHPAIRS = [
 ]
 
 
+# function literals of shapes no other case uses (more than 4 parameters / variadic: the interpreter builds a Go func type for each on first use); these
+# cases are run concurrently FIRST, on separate environments
+def _fresh(n):
+    ps = ", ".join("a%d" % j for j in range(n))
+    args = ", ".join(str(j) for j in range(n))
+    return ("f = func(%s) { return a%d }\ng = func(%s, r...) { return len(r) }\nh = func(%s, r...) { return a0 }\n[f(%s), g(%s, 1, 2), h(%s)]"
+            % (ps, n - 1, ps, ", ".join("a%d" % j for j in range(n + 60)), args, args, ", ".join(str(j) for j in range(n + 60))))
+FRESH = [("fresh-shape-%d" % n, _fresh(n)) for n in range(40, 60)]
+
+
 def cases():
-    return ([{"id": "raw-" + n, "src": s} for n, s in RAW] +
+    return ([{"id": "raw-" + n, "src": s, "concfirst": True} for n, s in FRESH] +
+            [{"id": "raw-" + n, "src": s} for n, s in RAW] +
             [{"id": "raw-" + n, "src": s, "variants": ["int64", "float64", "string"]} for n, s in VARIANT] +
             [{"id": "raw-envpair-%s-%s" % (n, how), "src": b, "pair": {"s0": s0, "a": a, "how": how}} for n, s0, a, b in ENVPAIRS for how in ("Copy", "DeepCopy")] +
             [{"id": "raw-envfresh-%s" % n, "src": b, "pair": {"s0": s0, "a": a, "how": "Fresh", "core": True}} for n, s0, a, b in FRESHPAIRS])
